@@ -46,6 +46,7 @@ func init() {
 				cs = append(cs, Case{Kind: "callgas", P: []int64{int64(f)}, Seed: h.Mix(seed, 0xC02C, uint64(f))})
 				cs = append(cs, Case{Kind: "selfdestruct", P: []int64{int64(f)}, Seed: h.Mix(seed, 0xC02D, uint64(f))})
 				cs = append(cs, Case{Kind: "createwarm", P: []int64{int64(f)}})
+				cs = append(cs, Case{Kind: "createedge", P: []int64{int64(f)}, Seed: h.Mix(seed, 0xC02E, uint64(f))})
 				cs = append(cs, Case{Kind: "pcprice", P: []int64{int64(f)}})
 			}
 			return cs
@@ -231,37 +232,11 @@ func runC02(c Case, tier string) (res CaseResult) {
 		// without balance (refund counter, new-account and cold-access surcharges differ per fork)
 		f := h.Fork(c.P[0])
 		n := int64(0)
-		bens := []common.Address{h.EOARich, h.Nobody, h.EmptyAcct, h.ContractAddr(1), h.ContractAddr(2), h.ContractAddr(3), common.BytesToAddress([]byte{4}), {}}
-		for bi, ben1 := range bens {
-			for _, ben2 := range []common.Address{h.ContractAddr(1), h.ContractAddr(2), h.Nobody} {
-				for _, bal := range []int64{0, 5} {
-					d1 := h.NewAsm().PushAddr(ben1).Op(h.SELFDESTRUCT).Bytes()
-					d2 := h.NewAsm().PushAddr(ben2).Op(h.SELFDESTRUCT).Bytes()
-					d3 := h.NewAsm().Op(h.ADDRESS, h.SELFDESTRUCT).Bytes()
-					a := h.NewAsm()
-					order := [][]int{{1, 1}, {2, 1}, {1, 2, 1}, {3, 1, 3}, {2, 2, 1, 1}}[(bi+int(bal))%5]
-					for _, t := range order {
-						a.PushU(0).PushU(0).PushU(0).PushU(0).PushU(uint64(bal%2)).PushAddr(h.ContractAddr(t)).PushU(100000).Op(h.CALL, h.POP)
-					}
-					// what the transaction can still see of the destroyed contracts and their beneficiaries
-					for i, who := range []common.Address{h.ContractAddr(1), h.ContractAddr(2), h.ContractAddr(3), ben1} {
-						a.PushAddr(who).Op(h.BALANCE).PushU(uint64(40 + i)).Op(h.SSTORE)
-					}
-					a.Op(h.STOP)
-					w := h.BaseWorld([][]byte{a.Bytes(), d1, d2, d3})
-					for i := 1; i <= 3; i++ {
-						w.Get(h.ContractAddr(i)).Balance = big.NewInt(bal)
-					}
-					for _, gas := range []uint64{1_000_000, 60000} {
-						dc := DualCase{World: w, Env: h.EnvSpec{Fork: f}, Tx: h.TxSpec{Entry: h.ECall, From: h.Sender, To: h.ContractAddr(0), Gas: gas},
-							Desc: fmt.Sprintf("selfdestruct order=%v fork=%s beneficiary1=%s beneficiary2=%s balance=%d txgas=%d", order, f, ben1.Hex(), ben2.Hex(), bal, gas)}
-						if fs, _, ok := dualStreams(&res, dc, false, "selfdestruct"); ok {
-							res.Shape("selfdestruct", f, order, bi, bal, shapeOf(fs.L))
-						}
-						n++
-					}
-				}
+		for _, dc := range selfdestructDuals(f) {
+			if fs, _, ok := dualStreams(&res, dc, false, "selfdestruct"); ok {
+				res.Shape("selfdestruct", f, shapeOf(fs.L))
 			}
+			n++
 		}
 		res.Evals = n
 		res.Count("selfdestruct_cases", n)
@@ -324,6 +299,17 @@ func runC02(c Case, tier string) (res CaseResult) {
 		}
 		res.Evals = n
 		res.Count("createwarm_cases", n)
+	case "createedge":
+		f := h.Fork(c.P[0])
+		n := int64(0)
+		for _, dc := range createEdgeDuals(f, h.NewRNG(c.Seed)) {
+			if fs, _, ok := dualStreams(&res, dc, false, "createedge"); ok {
+				res.Shape("createedge", f, shapeOf(fs.L))
+			}
+			n++
+		}
+		res.Evals = n
+		res.Count("createedge_cases", n)
 	case "pcprice":
 		// every standard precompile with zero-filled inputs of the lengths at which its price formula changes, ample and
 		// tight gas: the fee charged (and so the gas handed back) is the reference's on every fork
@@ -430,6 +416,85 @@ func runC02(c Case, tier string) (res CaseResult) {
 		res.Count("callgas_cases", n)
 	}
 	return
+}
+
+// selfdestructDuals: programs in which contracts destroy themselves in different orders and the transaction then
+// looks at what is left (balances of the destroyed contracts and of the beneficiaries, calls into destroyed contracts).
+func selfdestructDuals(f h.Fork) []DualCase {
+	var out []DualCase
+	bens := []common.Address{h.EOARich, h.Nobody, h.EmptyAcct, h.ContractAddr(1), h.ContractAddr(2), h.ContractAddr(3), common.BytesToAddress([]byte{4}), {}}
+	for bi, ben1 := range bens {
+		for _, ben2 := range []common.Address{h.ContractAddr(1), h.ContractAddr(2), h.Nobody} {
+			for _, bal := range []int64{0, 5} {
+				d1 := h.NewAsm().PushAddr(ben1).Op(h.SELFDESTRUCT).Bytes()
+				d2 := h.NewAsm().PushAddr(ben2).Op(h.SELFDESTRUCT).Bytes()
+				d3 := h.NewAsm().Op(h.ADDRESS, h.SELFDESTRUCT).Bytes()
+				a := h.NewAsm()
+				order := [][]int{{1, 1}, {2, 1}, {1, 2, 1}, {3, 1, 3}, {2, 2, 1, 1}, {3, 3, 2}}[(bi+int(bal))%6]
+				for _, t := range order {
+					a.PushU(0).PushU(0).PushU(0).PushU(0).PushU(uint64(bal % 2)).PushAddr(h.ContractAddr(t)).PushU(100000).Op(h.CALL, h.POP)
+				}
+				// what the transaction can still see of the destroyed contracts and their beneficiaries
+				for i, who := range []common.Address{h.ContractAddr(1), h.ContractAddr(2), h.ContractAddr(3), ben1} {
+					a.PushAddr(who).Op(h.BALANCE).PushU(uint64(40 + i)).Op(h.SSTORE)
+				}
+				a.Op(h.STOP)
+				w := h.BaseWorld([][]byte{a.Bytes(), d1, d2, d3})
+				for i := 1; i <= 3; i++ {
+					w.Get(h.ContractAddr(i)).Balance = big.NewInt(bal)
+				}
+				for _, gas := range []uint64{1_000_000, 60000} {
+					out = append(out, DualCase{World: w, Env: h.EnvSpec{Fork: f}, Tx: h.TxSpec{Entry: h.ECall, From: h.Sender, To: h.ContractAddr(0), Gas: gas},
+						Desc: fmt.Sprintf("selfdestruct order=%v fork=%s beneficiary1=%s beneficiary2=%s balance=%d txgas=%d", order, f, ben1.Hex(), ben2.Hex(), bal, gas)})
+				}
+			}
+		}
+	}
+	return out
+}
+
+// createEdgeDuals: every init-code template created by CREATE, CREATE2 and as the transaction itself, with a gas budget
+// that is ample, that covers the init code but not the code deposit, and that is tiny; the creator then looks at the result.
+func createEdgeDuals(f h.Fork, r *h.RNG) []DualCase {
+	var out []DualCase
+	for t := 0; t < h.NumInitTemplates; t++ {
+		init := h.InitTemplate(r, t)
+		for _, gas := range []uint64{3_000_000, 200_000, 60_000, 12_000_000} {
+			if t == 2 && gas > 200_000 {
+				continue // (the looping template: long runs add nothing)
+			}
+			if gas == 12_000_000 && t != 5 && t != 9 && t != 10 && t != 11 {
+				continue // (only the templates returning kilobytes of code need a budget that covers their deposit)
+			}
+			for mode := 0; mode < 3; mode++ {
+				if mode == 2 && f < h.Constantinople {
+					continue
+				}
+				var w *h.World
+				var tx h.TxSpec
+				if mode == 0 {
+					w = h.BaseWorld(nil)
+					tx = h.TxSpec{Entry: h.ECreate, From: h.Sender, Input: init, Gas: gas, Value: big.NewInt(int64(t % 2))}
+				} else {
+					a := h.NewAsm().MstoreBytes(0, init)
+					if mode == 1 {
+						a.PushU(uint64(len(init))).PushU(0).PushU(uint64(t % 2)).Op(h.CREATE)
+					} else {
+						a.PushU(3).PushU(uint64(len(init))).PushU(0).PushU(uint64(t % 2)).Op(h.CREATE2)
+					}
+					a.Op(h.DUP1).PushU(1).Op(h.SSTORE)
+					a.Op(h.DUP1, h.EXTCODESIZE).PushU(2).Op(h.SSTORE)
+					a.Op(h.DUP1, h.BALANCE).PushU(3).Op(h.SSTORE)
+					a.PushU(0).PushU(0).PushU(0).PushU(0).PushU(0).Op(h.DUP1 + 5).PushU(20000).Op(h.CALL).PushU(4).Op(h.SSTORE)
+					a.Op(h.POP, h.GAS).PushU(5).Op(h.SSTORE, h.STOP)
+					w = h.BaseWorld([][]byte{a.Bytes()})
+					tx = h.TxSpec{Entry: h.ECall, From: h.Sender, To: h.ContractAddr(0), Gas: gas}
+				}
+				out = append(out, DualCase{World: w, Env: h.EnvSpec{Fork: f}, Tx: tx, Desc: fmt.Sprintf("create edge: init template %d mode=%d (0 tx, 1 CREATE, 2 CREATE2) gas=%d fork=%s", t, mode, gas, f)})
+			}
+		}
+	}
+	return out
 }
 
 func min(a, b int) int {
